@@ -25,9 +25,9 @@ type check struct {
 	gocache string
 
 	mu       sync.Mutex
-	evals    int            // oracle evaluations
+	evals    int             // oracle evaluations
 	distinct map[string]bool // distinct non-trivial observation classes
-	short    []string       // parts that stayed below their observation floor
+	short    []string        // parts that stayed below their observation floor
 	extra    map[string]any
 
 	// class violations are reported once, with the number of instances and the first witnesses
@@ -75,6 +75,23 @@ func (k *check) classViolate(key, what, witness string, files map[string]string)
 	}
 }
 
+// violate records a violation; bundles that contain Go files get a go.mod at their root so that
+// they form their own module and stay out of `go build ./...` of the harness.
+func (k *check) violate(key, what string, files map[string]string) {
+	out := map[string]string{}
+	hasGo := false
+	for n, f := range files {
+		out[n] = f
+		if strings.HasSuffix(n, ".go") {
+			hasGo = true
+		}
+	}
+	if _, ok := out["go.mod"]; hasGo && !ok {
+		out["go.mod"] = "module replay\n\ngo 1.20\n"
+	}
+	k.c.Violate(key, what, out)
+}
+
 func (k *check) flushClasses() {
 	var keys []string
 	for key := range k.classes {
@@ -85,7 +102,7 @@ func (k *check) flushClasses() {
 		cv := k.classes[key]
 		what := fmt.Sprintf("%s [%d instances this run; first witnesses below]\n%s", cv.what, cv.instances, strings.Join(cv.witnesses, "\n"))
 		k.c.Count("class_instances/"+key, cv.instances)
-		k.c.Violate(key, what, cv.files)
+		k.violate(key, what, cv.files)
 	}
 }
 
@@ -134,7 +151,14 @@ func Run(c *core.Ctx) int {
 
 	var jobs []func()
 	var post []func() // second phase, needs results of the first
-	add := func(js, ps []func()) { jobs = append(jobs, js...); post = append(post, ps...) }
+	add := func(js, ps []func()) {
+		for _, j := range js {
+			jobs = append(jobs, k.timed(len(jobs), j))
+		}
+		for _, j := range ps {
+			post = append(post, k.timed(1000+len(post), j))
+		}
+	}
 	add(k.transparencyJobs())
 	add(k.isolationJobs())
 	add(k.damageJobs())
@@ -169,6 +193,20 @@ func Run(c *core.Ctx) int {
 			"strace 'when=N' counts per thread; children run with GOMAXPROCS=1 and the N values that actually injected a fault are recorded",
 			"two spellings of one clean path and reorderings/duplicates of one tag set count as the same configuration (observed, not judged)",
 		})
+}
+
+// timed reports slow jobs when C20_DEBUG is set (development aid; no effect on verdicts).
+func (k *check) timed(i int, f func()) func() {
+	if os.Getenv("C20_DEBUG") == "" {
+		return f
+	}
+	return func() {
+		t := time.Now()
+		f()
+		if d := time.Since(t); d > 2*time.Second {
+			fmt.Printf("C20_DEBUG job %d took %.1fs (at +%.1fs)\n", i, d.Seconds(), time.Since(k.c.Start).Seconds())
+		}
+	}
 }
 
 func (k *check) belowFloor(part string, got, want int) {
